@@ -3,7 +3,7 @@ from . import _hub
 
 CONFIG = dict(
     modules=["SigModel.Props.C07"],
-    theorems=["SigModel.Hub.reachable_inv", "SigModel.Hub.C07_no_residue", "SigModel.Hub.C07_ended_in_no_room", "SigModel.Hub.C07_connections", "SigModel.Hub.C07_facts", "SigModel.Hub.C07_limit_check_atomic", "SigModel.Hub.C07_federated_cleared", "SigModel.Hub.C07_limit_respected", "SigModel.Hub.C07_free_slot_usable"],
+    theorems=["SigModel.Hub.reachable_inv", "SigModel.Hub.C07_no_residue", "SigModel.Hub.C07_ended_in_no_room", "SigModel.Hub.C07_connections", "SigModel.Hub.C07_facts", "SigModel.Hub.C07_limit_check_atomic", "SigModel.Hub.C07_federated_cleared", "SigModel.Hub.C07_count_is_set_size", "SigModel.Hub.C07_limit_respected", "SigModel.Hub.C07_free_slot_usable"],
     generated=["Hub"],
     harness=_hub.HARNESS,
     stats=_hub.stats,
